@@ -110,7 +110,18 @@ def run(ctx):
     ctx.check(sc[0] == 'int' and chr(sc[1]) == sep1, 'R1', "reader: the next chunk starts after the next '%s'" % sep1, where(ct, strchr.line), 'strchr(%r)' % (chr(sc[1]) if sc[0] == 'int' else '?'),
               key='R1|constructor|chunk separator')
     ctx.check(counts == {1, 2}, 'R1', 'reader: a chunk with or without times_considered is accepted', where(ct, scan.line), 'accepted conversion counts %s' % sorted(counts), key='R1|constructor|optional times')
-    ctx.check(tdef == ('int', 0), 'R1', 'reader: an omitted times_considered is 0 (the only value the writer omits, times being non-negative)', where(ct), 'default %s' % (ex.pretty(tdef) if tdef else '?'),
+    # the default holds for *each* chunk: times_considered is (re)set to 0 inside the loop that parses the chunks, before the sscanf of that chunk
+    per_chunk = False
+    sblk = ct['elems'][scan.eid]['b']
+    for h in v.loop_heads():
+        body = cg.natural_loop(v, h['id']) | {h['id']}
+        if sblk in body:
+            for eid in range(len(ct['elems'])):
+                for e in v.events_of(eid):
+                    if e.eid == eid and e.kind == 'assign' and e.lhs[0] == 'var' and e.lhs[2] == 'times_considered' and e.rhs == ('int', 0) and ct['elems'][eid]['b'] in body:
+                        per_chunk = True
+    ctx.check(tdef == ('int', 0) and per_chunk, 'R1', 'reader: an omitted times_considered is 0 (the only value the writer omits, times being non-negative), for every chunk', where(ct),
+              'default %s%s' % (ex.pretty(tdef) if tdef else '?', '' if per_chunk else '; it is set once before the loop: a chunk without "/n" inherits the value parsed for an earlier chunk'),
               key='R1|constructor|default times')
     okpush = any(e.kind == 'new' and 'aid' in repr(e.nf) and 'times_considered' in repr(e.nf) for eid in range(len(ct['elems'])) for e in v.events_of(eid))
     ctx.check(okpush, 'R1', 'reader: each chunk becomes a Transition(aid, times_considered)', where(ct), '', key='R1|constructor|transition')
